@@ -40,8 +40,10 @@ sibling_of = G.sibling_of
 
 class C12(Prop):
     id = 'C12'
-    theorems = ['C12.history_free', 'C12.build_is_a_function', 'C12.support_files_standalone']
-    proof_modules = ['DznProofs.C12']
+    theorems = ['C12.history_free', 'C12.build_is_a_function', 'C12.support_files_standalone',
+                'C12.step_frame', 'C12.step_fresh', 'C12.step_grows', 'C12.run_frame', 'C12.sro_refines', 'C12.add_refines',
+                'C12.iadd_in_place']
+    proof_modules = ['DznProofs.C12', 'DznProofs.C12Heap']
     level_rule = ('histories of 2-12 builds in one interpreter over shared and distinct parsed models with valid and '
                   'invalid configurations; before/after deep structural snapshots of the parsed model and of the '
                   'configuration object; every result compared with a fresh interpreter per build and with the Lean '
@@ -49,9 +51,16 @@ class C12(Prop):
                   '>=2 builds on one shared model; distinct = distinct history')
 
     def streams(self, rng, tier):
-        return []
+        # the scoping layer as a heap of list objects: which operation writes to which existing object, which
+        # results are new objects (DznModel.ScopingHeap; theorems C12.step_frame / step_fresh / run_frame)
+        from harness import heap_ops as H
+        n = 300 if tier == 'quick' else scale(20000)
+        yield 'heap', [H.gen_case(rng) for _ in range(n)]
 
     def impl(self, case):
+        if case.get('op') == 'heap':
+            from harness import heap_ops as H
+            return H.run(case)[0]
         return G.build_impl(case)
 
     def extra(self, ctx):
